@@ -26,6 +26,11 @@ class AnalysisError(Exception):
     """The analysis cannot stand behind a verdict (exit code 2)."""
 
 
+class Abort(Exception):
+    """A violation was reported that makes the rest of this property's rules meaningless (the analysed effect is absent): stop, keep
+    the report (exit code 1 through the reported violation)."""
+
+
 @dataclass
 class FuncInfo:
     name: str
